@@ -32,7 +32,7 @@ TECHNIQUE = ("explicit-state breadth-first exploration of loader operation histo
 DESIGN_REF = "DESIGN.md section 3, C03"
 RULE = (
     "states = (initial construction, ordered uid tuple) reached by BFS to closure from 6 initial loaders (1 single-tomogram, "
-    "5 batch constructions incl. re-used image id, from_loaders, reversed order, numpy tomogram before dask tomograms); transitions = real loader methods; "
+    "6 batch constructions incl. re-used image id, from_loaders, reversed order, numpy tomogram before dask tomograms, two auto-id batches merged by add_loader(BatchLoader)); transitions = real loader methods; "
     "every state is observed by 9 per-row observers and 8 group observers; non-trivial state = at least 2 molecules and not the initial order"
 )
 LEVEL_TEXT = ("all loader states reachable by the operation alphabet from the initial constructions are enumerated to closure; "
@@ -126,7 +126,7 @@ def tomos(universe, nmol, ntomo):
     return _TOMO_CACHE[key]
 
 
-INITS = ["single", "batch", "batch-rev", "batch-reuse-id", "from_loaders", "batch-mixed-arrays"]
+INITS = ["single", "batch", "batch-rev", "batch-reuse-id", "from_loaders", "batch-mixed-arrays", "nested-batches"]
 
 
 def build_initial(name, universe, nmol, ntomo):
@@ -176,6 +176,17 @@ def build_initial(name, universe, nmol, ntomo):
         ld.add_tomogram(T[0], molecules(rest), image_id=0)
         order += rest
         return ld, tuple(order)
+    if name == "nested-batches":
+        # two batch loaders built with automatic image ids (both start at 0), merged with add_loader(BatchLoader): the ids of
+        # the nested loader collide with the receiver's and must be re-issued, not reused (wave 10 seed C09j)
+        ld = BatchLoader(**kw)
+        for t in range(max(1, ntomo - 1)):
+            ld.add_tomogram(T[t], molecules(by_t[t]))
+        other = BatchLoader(**kw)
+        for t in range(max(1, ntomo - 1), ntomo):
+            other.add_tomogram(T[t], molecules(by_t[t]))
+        ld.add_loader(other)
+        return ld, tuple(itertools.chain(*by_t))
     if name == "from_loaders":
         subs = [SubtomogramLoader(T[t], molecules(by_t[t]), **kw) for t in range(ntomo)]
         ld = BatchLoader.from_loaders(subs, **kw)
